@@ -425,6 +425,14 @@ def run_cases(mod, binary, cases, jobs=NPROC):
         return pool.map(_wrun, cases, chunksize=max(1, len(cases) // (jobs * 8)))
 
 
+def scale(tier, quick_n, thorough_n):
+    if tier == "thorough":
+        return thorough_n
+    if tier == "escalated":
+        return min(thorough_n, 3 * quick_n)
+    return quick_n
+
+
 def load_known():
     p = os.path.join(VERIF, "known_findings.json")
     if os.path.exists(p):
@@ -461,7 +469,7 @@ def corpus_cases(pid):
     return out
 
 
-def run_property(pid, mod, tier, seed, replay=None):
+def run_property(pid, mod, tier, seed, replay=None, corpus_only=False):
     """the whole check for one property; returns the exit code"""
     t0 = time.time()
     trusted = [
@@ -497,8 +505,9 @@ def run_property(pid, mod, tier, seed, replay=None):
         corpus = corpus_cases(pid)
         mine = set(getattr(mod, "GEN_FILES", []))
         thorough_needed = any(x.get("file") in mine for x in b.tie["fallback"]) or any(x.get("file", "")[:-2] in mine for x in b.gen_compile_fallback)
-        gen, gen_hist = mod.gen_cases(rng, "thorough" if (tier == "thorough" or thorough_needed) else "quick")
-        cases = corpus + gen
+        # a tie-A fallback in this property's cone demands a larger correspondence run ("escalated": 3x quick)
+        gen, gen_hist = mod.gen_cases(rng, "thorough" if tier == "thorough" else ("escalated" if thorough_needed else "quick"))
+        cases = corpus + ([] if corpus_only else gen)
         gen_hist = dict(gen_hist, corpus=len(corpus))
     results = run_cases(mod, b.binary, cases)
 
@@ -520,7 +529,8 @@ def run_property(pid, mod, tier, seed, replay=None):
 
     def report_violation(case, detail, tag=""):
         nonlocal exit_code, n_viol
-        case2, detail2 = shrink(mod, b.binary, case, detail, want="oracle")
+        k0 = mod.violation_class(case, detail) if hasattr(mod, "violation_class") else None
+        case2, detail2 = shrink(mod, b.binary, case, detail, want="oracle", klass=k0)
         kf = match_known(known, pid, mod, case2, detail2)
         key = json.dumps(kf["id"] if kf else mod.violation_class(case2, detail2) if hasattr(mod, "violation_class") else "v", sort_keys=True)
         if key in reported:
@@ -629,7 +639,7 @@ def match_known(known, pid, mod, case, detail):
     return None
 
 
-def shrink(mod, binary, case, detail, want, budget=150, seconds=90):
+def shrink(mod, binary, case, detail, want, budget=150, seconds=90, klass=None):
     """greedy shrinking with the property module's candidate generator, under a time budget"""
     if not hasattr(mod, "shrink_candidates"):
         return case, detail
@@ -648,6 +658,8 @@ def shrink(mod, binary, case, detail, want, budget=150, seconds=90):
                 except Exception:
                     continue
                 bad = (r.oracle_ok is False) if want == "oracle" else (r.agree is False)
+                if bad and want == "oracle" and klass is not None and hasattr(mod, "violation_class"):
+                    bad = mod.violation_class(cand, r.detail) == klass  # stay on the same kind of failure
                 if bad:
                     case, detail = cand, r.detail
                     improved = True
